@@ -565,6 +565,19 @@ fn check_bufsim(o: &Opts, prop: Prop) {
 			println!("note: listed finding did not reproduce in this run: {}", k.what);
 		}
 	}
+	// vacuity guard: a batch in which the operations the property is about never ran decides
+	// nothing and must not report "held" (harness error, not a violation)
+	if total >= 100_000 {
+		let n = |k: &str| stats.ops.get(k).copied().unwrap_or(0);
+		let enough = match prop {
+			Prop::C04 => n("path_burst") > 1000 && n("authority_burst") > 1000 && n("set_path(some)") > 1000 && n("resolve") + n("into_resolved") > 1000,
+			Prop::C10 => n("path_burst") > 1000 && stats.c.get("standalone_twin_bursts").copied().unwrap_or(0) > 1000,
+			Prop::C11 => n("authority_burst") > 1000,
+		};
+		if !enough {
+			die(&format!("vacuous batch for {}: the operations the property is about were (almost) never executed: {:?}", prop.id(), stats.ops));
+		}
+	}
 	let wall = t0.elapsed().as_secs_f64();
 	// samples: the first three runs, re-executed here
 	let mut samples = Vec::new();
@@ -722,6 +735,9 @@ fn check_itersim(o: &Opts) {
 		for h in &w.distinct {
 			distinct.insert(*h);
 		}
+	}
+	if total >= 100_000 && (steps < total || stats.c.get("generator_rejected").copied().unwrap_or(0) > total / 100) {
+		die("vacuous batch for C12: (almost) no iterator step was executed or the generator is rejected");
 	}
 	let wall = t0.elapsed().as_secs_f64();
 	let mut samples = Vec::new();
@@ -899,6 +915,9 @@ fn check_allocsim(o: &Opts) {
 		for h in &w.distinct {
 			distinct.insert(*h);
 		}
+	}
+	if total >= 100_000 && (stats.c.get("valid_inputs").copied().unwrap_or(0) < total / 4 || stats.windows < total) {
+		die("vacuous batch for C20: too few valid inputs reached the accessors");
 	}
 	let wall = t0.elapsed().as_secs_f64();
 	let mut samples = Vec::new();
